@@ -74,10 +74,10 @@ Proof. exact divide_too_small_iff. Qed.
 Print Assumptions C12_too_small.
 
 (* TERMINATION, for all child lists, all weights >= 0 (zero included), all
-   available sizes: within divide_fuel ds avail = n((D+((D+1)W+3))W+1)+1
-   iterations per loop (D = max(0,avail), W = max(1, weights), n children)
-   the division answers 'too small' or sizes - never out of fuel, never an
-   exception. *)
+   available sizes: within
+     divide_fuel ds avail = (max(0, avail) + 1) * (sum of the weights) + n + 1
+   iterations per loop (n children) the division answers 'too small' or
+   sizes - never out of fuel, never an exception. *)
 Theorem C12_terminates : forall done ds avail fuel,
   Forall valid ds -> (divide_fuel ds avail <= fuel)%nat ->
   (divide fuel done ds avail = TooSmall /\ ds <> [] /\ zsum (mins ds) > avail) \/
@@ -125,6 +125,22 @@ Theorem C12_sizes_all_weighted : forall fuel ds avail l,
   zsum l = Z.min avail (zsum (maxs ds)).
 Proof. exact divide_all_weighted. Qed.
 Print Assumptions C12_sizes_all_weighted.
+
+(* The bound is of the right order.  Below: no generator whatsoever lets a
+   loop finish in fewer iterations than the amount by which it has to raise
+   the total; and a child of weight 1 next to a saturated child of weight 50
+   at 20 available cells needs more than 969 iterations (the bound is 1074):
+   the factor "sum of the weights" cannot be dropped. *)
+Theorem C12_loop_needs_fuel : forall (G : Type) (nx : G -> option (nat * G)) fuel stop caps sizes i g r,
+  grow nx fuel stop caps sizes i g = Some r -> stop - zsum sizes <= Z.of_nat fuel.
+Proof. intros G nx. exact (grow_needs_fuel nx). Qed.
+Print Assumptions C12_loop_needs_fuel.
+
+Example C12_fuel_bound_nearly_attained :
+  let ds := [mkdim 0 0 0 50; mkdim 0 HUGE 0 1] in
+  divide_fuel ds 20 = 1074%nat /\ divide 969 false ds 20 = OutOfFuel /\ divide 1000 false ds 20 = Sizes [0; 20].
+Proof. vm_compute. repeat split; reflexivity. Qed.
+Print Assumptions C12_fuel_bound_nearly_attained.
 
 Example C12_example :
   divide (divide_fuel [mkdim 1 3 2 1; mkdim 0 HUGE 1 2; mkdim 2 2 2 0] 12) false
@@ -188,12 +204,13 @@ Theorem C12_cached_children : forall pool pad align ids,
 Proof. intros. split; [apply entries_children|apply entries_all_children]. Qed.
 Print Assumptions C12_cached_children.
 
-(* A sequence of renders of one split object with its children list edited
-   in between gives, at every step, the render of a fresh split with the
-   current children. *)
+(* A sequence of renders of one split object - its children list edited and
+   its children's reported requirements changed in between - gives, at
+   every step, the render of a split that recomputes _all_children from the
+   current children and divides by the requirements reported now. *)
 Theorem C12_renders_ignore_cache : forall fuel orient done align pad pool avail start steps,
   render_steps fuel orient done align pad pool avail start None steps =
-  map (render_one fuel orient done align pad pool avail start) steps.
+  render_fresh fuel orient done align pad pool avail start steps.
 Proof. intros. apply render_steps_nocache. exact I. Qed.
 Print Assumptions C12_renders_ignore_cache.
 
@@ -215,6 +232,27 @@ Theorem C12_split_report_valid : forall fuel orient axis align pad cs width r,
   exists d, r = COk d /\ valid d.
 Proof. exact split_report_valid. Qed.
 Print Assumptions C12_split_report_valid.
+
+(* ... also with an explicit width= / height= on the split, which then is
+   what the split reports *)
+Theorem C12_split_report_override_valid : forall ov fuel orient axis align pad cs width r,
+  valid pad -> Forall valid (map fst cs) -> Forall valid (map snd cs) ->
+  (forall o, ov = Some o -> exists d, o = COk d /\ valid d) ->
+  split_report_ov ov fuel orient axis align pad cs width = inl r ->
+  exists d, r = COk d /\ valid d.
+Proof. exact split_report_ov_valid. Qed.
+Print Assumptions C12_split_report_override_valid.
+
+(* Across the split axis there is no division: every child is handed the
+   full cross extent of the split, whatever it asks for (HSplit passes the
+   width on; VSplit computes max(h, min(h, max(heights))) = h).  So for
+   nesting ACROSS the axis "within each leaf's bounds" is not a property of
+   the split (the Window clips itself via dont_extend_width and dont_extend_height); only same-axis
+   nesting is (next theorem). *)
+Theorem C12_cross_axis_full_extent : forall orient cross prefs,
+  cross_extent orient cross prefs = cross.
+Proof. exact cross_extent_full. Qed.
+Print Assumptions C12_cross_axis_full_extent.
 
 (* Nested division along the same axis stays within every leaf's bounds:
    if the k-th requirement of the outer split is what an inner split reports
@@ -251,6 +289,17 @@ Theorem C12_merge_total : forall mn mx w p cp de d0,
             (de = false -> dmax d = dmax d0).
 Proof. exact merge_total. Qed.
 Print Assumptions C12_merge_total.
+
+(* Window.preferred_width/height including margins and
+   ignore_content_width/height: total and well-formed, min and weight are
+   the Window's own, the max is never widened *)
+Theorem C12_window_preferred_total : forall axis mn mx w p cp de margin ignore d0,
+  dimension mn mx w p = COk d0 ->
+  (forall v, cp = Some v -> 0 <= v) -> 0 <= margin ->
+  exists d, window_preferred axis mn mx w p cp de margin ignore = COk d /\ valid d /\
+            dmin d = dmin d0 /\ dweight d = dweight d0 /\ dmax d <= dmax d0.
+Proof. exact window_preferred_total. Qed.
+Print Assumptions C12_window_preferred_total.
 
 (* ------------------------------------------------------------------ *)
 (* The function before the fix (divide_pinned): where exactly it hung. *)
